@@ -198,6 +198,7 @@ func (m *Leader) Mem(b *bytes.Buffer) {
 type Commit struct {
 	committed map[uint64]string // index -> canonical entry
 	maxIdx    uint64
+	commitTerm map[uint64]uint64      // index -> term of the node on which it was first seen committed
 	leading   map[int]uint64          // node -> term it is currently seen leading
 	held      map[int]map[uint64]bool // node -> committed indices it held while leading
 }
@@ -207,6 +208,7 @@ func (m *Commit) Attach(c *sim.Cluster) {
 	m.maxIdx = 0
 	m.leading = map[int]uint64{}
 	m.held = map[int]map[uint64]bool{}
+	m.commitTerm = map[uint64]uint64{}
 }
 
 func logEntry(n *sim.Node, idx uint64) (*raft.LogEntry, bool) {
@@ -240,6 +242,7 @@ func (m *Commit) Step(c *sim.Cluster) *common.Violation {
 				break // lower indices were checked when this one was recorded
 			}
 			m.committed[idx] = ce
+			m.commitTerm[idx] = v.Term
 			if idx > m.maxIdx {
 				m.maxIdx = idx
 			}
@@ -277,7 +280,11 @@ func (m *Commit) Step(c *sim.Cluster) *common.Violation {
 			}
 			e, ok := logEntry(n, idx)
 			has := ok && sim.CanonEntry(e) == ce
-			if starting && !has {
+			// Raft's leader completeness speaks about leaders of later terms:
+			// a candidate of an older term whose granted votes arrive late
+			// legitimately starts leading without entries committed meanwhile
+			// by a newer-term leader (it can never commit anything itself).
+			if starting && !has && m.commitTerm[idx] < v.Term {
 				return viol("C07", "leader-missing-committed", "n%d started leading term %d without committed entry %s", i, v.Term, ce)
 			}
 			if held[idx] && !has {
@@ -299,7 +306,7 @@ func (m *Commit) Mem(b *bytes.Buffer) {
 	sort.Slice(idx, func(i, j int) bool { return idx[i] < idx[j] })
 	b.WriteString("COMMITTED")
 	for _, i := range idx {
-		fmt.Fprintf(b, " %s", m.committed[i])
+		fmt.Fprintf(b, " %s@%d", m.committed[i], m.commitTerm[i])
 	}
 	b.WriteByte('\n')
 }
